@@ -91,4 +91,5 @@ func genericPack(c *Ctx) {
 	ruleTrimCutset(c, "G-TRIM-CUTSET", pkgs)
 	ruleFirstDecides(c, "G-FIRST-DECIDES", pkgs)
 	ruleFormatData(c, "G-FORMAT-DATA", pkgs)
+	ruleNilBreak(c, "G-NIL-ELEMENT-BREAK", pkgs)
 }
